@@ -46,6 +46,42 @@ pub fn serve() {
                 None => "none".into(),
             },
             "bmtc" => format!("{}", hv::verif_bucket_mask_to_capacity(u(1))),
+            // TableLayout::new::<T>() for concrete element types: size_of, align_of, then what the table uses
+            "tlnew" => {
+                #[repr(align(32))]
+                #[allow(dead_code)]
+                struct A32([u8; 32]);
+                #[repr(align(64))]
+                #[allow(dead_code)]
+                struct A64z;
+                #[repr(align(4096))]
+                #[allow(dead_code)]
+                struct A4096([u8; 4096]);
+                fn tl<T>() -> String {
+                    let (s, c) = hashbrown::HashTable::<T>::verif_table_layout();
+                    format!("{} {} {} {}", std::mem::size_of::<T>(), std::mem::align_of::<T>(), s, c)
+                }
+                match u(1) {
+                    0 => tl::<()>(),
+                    1 => tl::<u8>(),
+                    2 => tl::<u16>(),
+                    3 => tl::<[u8; 3]>(),
+                    4 => tl::<u64>(),
+                    5 => tl::<[u8; 16]>(),
+                    6 => tl::<[u8; 17]>(),
+                    7 => tl::<[u16; 9]>(),
+                    8 => tl::<[u32; 5]>(),
+                    9 => tl::<[u8; 200]>(),
+                    10 => tl::<[u64; 25]>(),
+                    11 => tl::<u128>(),
+                    12 => tl::<A32>(),
+                    13 => tl::<A64z>(),
+                    14 => tl::<A4096>(),
+                    15 => tl::<(u8, [u8; 30])>(),
+                    16 => tl::<[u16; 1000]>(),
+                    _ => tl::<(u64, u64, u64)>(),
+                }
+            }
             "layout" => match hv::verif_calculate_layout_for(u(1), u(2), u(3)) {
                 Some((l, a, o)) => format!("{} {} {}", l, a, o),
                 None => "none".into(),
